@@ -101,6 +101,8 @@ pub struct HState {
     /// When true, recoverable errors are counted and execution continues regardless of mode.
     pub count_and_continue: bool,
     pub recovered_titles: RefCell<Vec<String>>,
+    /// control sequences of the harness fonts 0..=3 (\\nullfont, \\vpfa, \\vpfb, \\vpfc)
+    pub font_refs: Vec<Option<token::CommandRef>>,
 }
 
 impl HState {
@@ -132,7 +134,9 @@ impl TexlangState for HState {
         reversed_expansion: &[Token],
     ) {
         input.state().tick();
-        tracingmacros::hook(token, input, tex_macro, arguments, reversed_expansion)
+        // texlang_stdlib::tracingmacros::hook prints to the real stdout with println!; the harness
+        // does not call it (what it prints is not part of any property).
+        let _ = (token, tex_macro, arguments, reversed_expansion);
     }
     #[inline]
     fn expansion_override_hook(
@@ -163,7 +167,11 @@ impl TexlangState for HState {
     }
 }
 
-impl the::TheCompatible for HState {}
+impl the::TheCompatible for HState {
+    fn get_command_ref_for_font(&self, font: types::Font) -> Option<token::CommandRef> {
+        self.font_refs.get(font.0 as usize).copied().flatten()
+    }
+}
 
 implement_has_component![HState{
     alloc: alloc::Component,
@@ -326,6 +334,10 @@ pub fn new_vm(opts: &VmOptions) -> Box<vm::VM<HState>> {
     vm.state.error_mode.set_default_terminal(Rc::new(RefCell::new(term)));
     vm.state.out_sink = Some(Rc::new(RefCell::new(vec![])));
     vm.state.log_sink = Some(Rc::new(RefCell::new(vec![])));
+    for name in ["nullfont", "vpfa", "vpfb", "vpfc"] {
+        let cs = vm.cs_name_interner_mut().get_or_intern(name);
+        vm.state.font_refs.push(Some(token::CommandRef::ControlSequence(cs)));
+    }
     vm.state.budget.set(opts.budget);
     vm.state.count_and_continue = opts.count_and_continue;
     vm
